@@ -139,6 +139,9 @@ Definition adjust_holds (i : ainput) (o : list Z * list Z * list Z) : Prop :=
   let old := to_set (a_old i) in
   (ctr = old \/ set_ok i ctr) /\
   (target i <= lenZ (free_cpus i) -> set_ok i ctr /\ lenZ ctr = target i) /\
+  (* "at least two" (literal of the property text) whenever the step limit leaves room for two *)
+  (target i <= lenZ (free_cpus i) -> 2 <= dedup_len (a_old i) + ceil_div (lenZ (a_procs i)) 10 ->
+   2 <= lenZ ctr) /\
   podd = root /\
   (if a_static i then root = old \/ unprotected_existing i root else root = ctr).
 
@@ -156,6 +159,7 @@ Definition adjust_code (i : ainput) (o : list Z * list Z * list Z) : Z :=
   let c := set_code i ctr in
   if (enough || negb (eq_listZ ctr old)) && negb (c =? 0) then c
   else if enough && negb (lenZ ctr =? target i) then 305
+  else if enough && (2 <=? dedup_len (a_old i) + ceil_div (lenZ (a_procs i)) 10) && negb (2 <=? lenZ ctr) then 310
   else if negb (eq_listZ podd root) then 307
   else if a_static i then
     (if eq_listZ root old || unprotected_existingb i root then 0 else 306)
